@@ -8,7 +8,7 @@ META["C06"] = {
     "WALLCAP": {"quick": 300, "thorough": 3000},
     "RULE": (
         "One evaluation = one seeded scenario (driver, local-error profile, checkpoint placement relative to the "
-        "probe run's step ends, eps, clip, dt0, controller parameters, spurious-rejection rates and bias) run through "
+        "probe run's step ends, eps, clip, dt0, controller parameters, spurious-rejection rates and bias, rate of exactly-zero error estimates) run through "
         "the real loop against scripted Solver/Error peers; invariants I1..I8 are evaluated online after every peer "
         "call by a sequential reference model of the loop state. Distinct = distinct (configuration cell, abstract "
         "history string over {A accept, C clipped accept, R reject, b interpolate-beyond, a interpolate-at}); "
@@ -18,7 +18,7 @@ META["C06"] = {
         "real": ["ivpsolve.solve_adaptive_save_at", "ivpsolve.solve_adaptive_terminal_values", "ivpsolve.RejectionLoop",
                  "test_util.solve_adaptive_save_every_step", "control_integral", "control_proportional_integral",
                  "lax.while_loop/cond/switch/scan under jit (compiled re-runs)"],
-        "stub": ["Solver (token-issuing stub)", "ErrorEstimator (scripted h*(t)/dt profile with injected rejections)"],
+        "stub": ["Solver (token-issuing stub)", "ErrorEstimator (scripted h*(t)/dt profile with injected rejections and vanishing estimates)"],
         "seam": ["probdiffeq.backend.flow (Python-stepped)", "while_loop= argument", "ordered io_callback (compiled)"],
     },
     "PROBES": ["two_checkpoints_in_one_step", "step_end_within_eps_of_checkpoint", "rejection_directly_after_checkpoint",
